@@ -11,6 +11,7 @@ Nothing here is `_partial`: safety, the accounting invariants, exactly-once and 
 four option combinations.
 -/
 import YaclibModel.Proofs.CoSharedMutexProgress
+import YaclibModel.Proofs.CoSharedMutexExecInst
 import YaclibModel.Extracted.Kernels
 import YaclibModel.Model.Skeletons
 
@@ -429,6 +430,83 @@ example : ∃ s, Reachable ⟨false, true, prog3 [.wr] [.rd] [.wr]⟩ s ∧ s.pc
   have h18 := validator_sound h17 (l := .uUnlock 0) (s' := _) rfl
   have h19 := validator_sound h18 (l := .runR 0 1) (s' := _) rfl
   exact ⟨_, h19, rfl, rfl, rfl, rfl, rfl⟩
+
+/-! ### over a real executor (Proofs/CoSharedMutexExec*.lean)
+
+The premise "executors keep accepting work" made precise, as for C14: every `Run(node)` (`runFirst`, `runW`, `runR`) is a
+`Submit` at an executor `E` (an open transition system, Proofs/StrandTower.lean), the resumed coroutine's section is the
+body of that job (`call … ret`).  Safety holds over EVERY `E`; "nobody is forgotten" over every `E` that honours the
+IExecutor contract and never Drops (a Dropped coroutine would be completed with StopError while owning its lock). -/
+section OverExecutor
+open Yaclib.Strand (Exec ExecContract)
+open Yaclib.CoMutex (NeverDrops)
+variable {E : Exec} {x : XState E}
+
+theorem writer_excludes_all_over (h : XReach cfg E x) {c : Cid} (hc : HoldsExcl (x.m.pc c)) (d : Cid) (hd : d ≠ c) :
+    ¬ HoldsExcl (x.m.pc d) ∧ ¬ HoldsShared (x.m.pc d) := writer_excludes_all (xshared_projects h).1 hc d hd
+
+theorem readers_only_with_readers_over (h : XReach cfg E x) {c : Cid} (hc : HoldsShared (x.m.pc c)) (d : Cid) :
+    ¬ HoldsExcl (x.m.pc d) := readers_only_with_readers (xshared_projects h).1 hc d
+
+theorem grant_once_over (h : XReach cfg E x) (c : Cid) :
+    x.m.parks c = x.m.grants c + (if (x.m.pc c).isParked then 1 else 0) := grant_once (xshared_projects h).1 c
+
+/-- the shared mutex is a well-behaved client of its executor -/
+theorem executor_protocol_honoured (h : XReach cfg E x) : E.Run x.x x.p := (xshared_projects h).2
+
+/-- nobody is forgotten over every contract-honouring executor that keeps accepting work -/
+theorem quiescent_none_parked_over (hc : ExecContract E) (hnd : NeverDrops E) (h : XReach cfg E x)
+    (hq : ∀ x', ¬ XStep E x x') :
+    x.m.W = 0 ∧ x.m.R = 0 ∧ x.m.rwait = 0 ∧ x.m.spin = .free ∧ x.m.Q.length = 0 ∧ x.m.WQ.length = 0 ∧ x.m.pass = 0 ∧
+    ∀ c, x.m.pc c = .idle ∧ x.m.todo c = [] ∧ x.m.enters c + x.m.fails c = (cfg.prog c).length ∧
+         x.m.parks c = x.m.grants c :=
+  quiescent_none_parked (xshared_projects h).1 (xshared_quiescent hc hnd h hq)
+
+/-- … in particular over Inline, over a drained ManualExecutor, over the FairThreadPool (n ≥ 1) and over any tower of
+    Strands on a contract-honouring base (for the last two "never Drops" stays a hypothesis) -/
+theorem over_inline {x : XState (Yaclib.Strand.inlineExec true)} (h : XReach cfg _ x) (hq : ∀ x', ¬ XStep _ x x') :
+    QuiescentDone cfg x := cosharedmutex_over_inline h hq
+
+theorem over_manual {x : XState (Yaclib.Strand.manualExec false)} (h : XReach cfg _ x) (hq : ∀ x', ¬ XStep _ x x') :
+    QuiescentDone cfg x := cosharedmutex_over_manual h hq
+
+theorem over_pool {n : Nat} (hn : 0 < n) (stop : Option Yaclib.Pool.StopKind) (spur : Bool)
+    (hnd : NeverDrops (Yaclib.Pool.poolExec n stop spur)) {x : XState (Yaclib.Pool.poolExec n stop spur)}
+    (h : XReach cfg _ x) (hq : ∀ x', ¬ XStep _ x x') : QuiescentDone cfg x :=
+  cosharedmutex_over_pool hn stop spur hnd h hq
+
+theorem over_strand_tower {base : Exec} (hb : ExecContract base) (k : Nat) (hnd : NeverDrops (Yaclib.Strand.tower base k))
+    {x : XState (Yaclib.Strand.tower base k)} (h : XReach cfg _ x) (hq : ∀ x', ¬ XStep _ x x') : QuiescentDone cfg x :=
+  cosharedmutex_over_strand_tower hb k hnd h hq
+
+theorem xplain {s : XState E} (l : Label) {m' : State} (h : next s.m l = some m') (hs : synced s.job l = false) :
+    XStep E s { s with m := m' } := .plain (next_sound h) hs
+
+/-- non-vacuity: over the Inline executor a reader holds, a writer posts its debt and parks; the reader's unlock pays and
+    `Run`s the writer = `sub 0`, Inline `call 0`s it, and the writer is inside the exclusive section, the body of job 0 -/
+example : ∃ x : XState (Yaclib.Strand.inlineExec true),
+    XReach ⟨true, false, prog3 [.rd] [.wr] []⟩ (Yaclib.Strand.inlineExec true) x ∧
+    x.m.pc 1 = .wcs ∧ x.job 1 = some 0 ∧ x.p 0 = .calling ∧ x.m.grants 1 = 1 := by
+  let cfg : Cfg := ⟨true, false, prog3 [.rd] [.wr] []⟩
+  have h0 : XReach cfg (Yaclib.Strand.inlineExec true) (xinit cfg (Yaclib.Strand.inlineExec true)) := .init
+  have h1 := XReach.step h0 (xplain (.rdFadd 0) rfl rfl)
+  have h2 := XReach.step h1 (xplain (.enter 0) rfl rfl)
+  have h3 := XReach.step h2 (xplain (.twLoad 1 false) rfl rfl)
+  have h4 := XReach.step h3 (xplain (.spinXchg 1 true) rfl rfl)
+  have h5 := XReach.step h4 (xplain (.wrFadd 1) rfl rfl)
+  have h6 := XReach.step h5 (xplain (.wrPost 1) rfl rfl)
+  have h7 := XReach.step h6 (xplain (.exit 0) rfl rfl)
+  have h8 := XReach.step h7 (xplain (.rdFsub 0) rfl rfl)
+  have h9 := XReach.step h8 (xplain (.rwFsub 0) rfl rfl)
+  have h10 := XReach.step h9 (XStep.grantSub (l := .runFirst 0 1) (n := 1) (lx := Yaclib.Strand.XEv.sub 0)
+    (x' := Yaclib.Strand.upd Yaclib.Strand.protInit 0 .pending)
+    (next_sound (l := .runFirst 0 1) rfl) rfl (by exact ⟨rfl, rfl⟩) rfl rfl)
+  have h11 := XReach.step h10 (XStep.enterCall (n := 1) (j := 0) (lx := Yaclib.Strand.XEv.call 0)
+    (x' := Yaclib.Strand.upd (Yaclib.Strand.upd Yaclib.Strand.protInit 0 .pending) 0 .calling)
+    (next_sound (l := .enter 1) rfl) rfl (by exact ⟨rfl, rfl, rfl⟩) rfl)
+  exact ⟨_, h11, rfl, rfl, rfl, rfl⟩
+
+end OverExecutor
 
 end Yaclib.Props.C15
 
